@@ -278,7 +278,9 @@ Ltac stuck Hq A :=
   let H := fresh "Hs" in
   pose proof (Hq A eq_refl) as H; unfold step, wr_release, leave, handler_ok in H; cbn -[Nat.ltb] in H;
   repeat match goal with
-  | E : ?x = _ |- _ => tryif constr_eq E H then fail else (progress rewrite E in H; cbn -[Nat.ltb] in H)
+  | E : ?x = ?y |- _ =>
+      lazymatch y with context[x] => fail | _ => idtac end;
+      tryif constr_eq E H then fail else (progress rewrite E in H; cbn -[Nat.ltb] in H)
   end;
   try discriminate H.
 
@@ -853,9 +855,14 @@ Proof.
   unfold quiescentb, quiescent. rewrite forallb_forall. intros H a Ha.
   assert (Hin : In a (AdHandle :: tau_actions s) \/
                 (exists k, length (reqs (pc s)) <= k /\ (a = StStop k \/ a = FwRecv k \/ a = FwSend k))).
-  { unfold tau_actions. destruct a; try discriminate; cbn; auto 20.
+  { unfold tau_actions. destruct a; try discriminate.
+    all: try (left; cbn;
+              repeat match goal with
+                     | |- ?x = ?x \/ _ => left; reflexivity
+                     | |- _ \/ _ => right
+                     end; fail).
     all: destruct (Nat.lt_ge_cases k (length (reqs (pc s)))) as [Hlt|Hge]; [left|right; eauto].
-    all: do 14 right; apply in_flat_map; exists k; split; [apply in_seq; lia|cbn; auto]. }
+    all: cbn; do 14 right; apply in_flat_map; exists k; split; [apply in_seq; lia|cbn; auto]. }
   destruct Hin as [Hin|(k & Hk & Hak)].
   - specialize (H a Hin). destruct (step fx s a); [discriminate|reflexivity].
   - apply nth_error_None in Hk. unfold step. destruct (crashed s); auto.
